@@ -293,14 +293,15 @@ def events_match(exp, got):
 
 
 # ------------------------------------------------------------------ the stream
-def run_text(ctx, parsed, meta_out):
+def run_text(ctx, parsed, meta_out, stream="print", select_all=False, model=True, add_headers=True):
+    # (s_dom, wave 6: the last four parameters serve the ladder streams of props/C16_ladder.py; the defaults are the old behaviour)
     """parsed: [(doc, tape, toks)], meta_out: {(di, idx, entry, enc, p, du, na): (impl_tree_line, json.ser case)} of the main run"""
     rng = ctx.rng
     keys = list(meta_out.keys())
     chosen = set()
     for m in keys:
         di, idx, entry, enc, p, du, na = m
-        if (p == "1" and rng.random() < ctx.scale(0.35, 1.0)) or (idx == "top" and du == "p" and na == "n") or rng.random() < ctx.scale(0.08, 0.5):
+        if select_all or (p == "1" and rng.random() < ctx.scale(0.35, 1.0)) or (idx == "top" and du == "p" and na == "n") or rng.random() < ctx.scale(0.08, 0.5):
             chosen.add(m)
             chosen.add((di, idx, entry, enc, "0", du, na))
     chosen = [m for m in keys if m in chosen]
@@ -314,7 +315,7 @@ def run_text(ctx, parsed, meta_out):
     # every header node and its container, so that header-single can compare the two texts
     for di, (d, tape, toks) in enumerate(parsed):
         for i, t in enumerate(toks):
-            if t.startswith("H:"):
+            if add_headers and t.startswith("H:"):
                 for m in [(di, str(i + k), "v", "w", "0", du, na) for (du, na) in (("p", "a"), ("k", "n"), ("g", "u")) for k in (0, 1)]:
                     if m not in have:
                         chosen.append(m); have.add(m)
@@ -323,7 +324,7 @@ def run_text(ctx, parsed, meta_out):
         d, tape, toks = parsed[di]
         cases.append("json.print\t%s\t%s\t%s\t%s\t%s\t%s\t%s\t%s" % (hexs(d), tape, enc, idx, entry, p, du, na))
     ctx.count("print cases", len(cases))
-    impl, _ = ctx.correspond("print", cases, nontrivial=lambda c, i: len(i) > 8)
+    impl, _ = ctx.correspond(stream, cases, model=model, nontrivial=lambda c, i: len(i) > 8)
     base = len(impl) - len(cases)
     texts = {}
     for k, m in enumerate(chosen):
